@@ -145,6 +145,7 @@ class Run(RunBase):
         self.step = 0
         self.version = {k: 0 for k in self.scn}  # bumped when a scenario (a writer INPUT) is changed
         self.mutations = {k: [] for k in self.scn}  # re-applied by the pristine twin
+        self.readers = {}  # (path, format) -> reader object, re-used for later read-backs of the same path
         self.zygote = get_zygote()
 
     def close(self):
@@ -381,7 +382,14 @@ class Run(RunBase):
         out = {"result": "ok"}
         if op.get("readback", False):
             try:
-                sc2, pps2 = CommonRoadFileReader(path, FMT[args["fmt"]]).open()
+                # reader objects are kept per path and re-used: a long-lived reader must return what is in the file now
+                rk = (path, args["fmt"])
+                if rk in self.readers and op.get("reuse_reader", True):
+                    reader = self.readers[rk]
+                    self.probe("reader-object-reused-after-rewrite")
+                else:
+                    reader = self.readers[rk] = CommonRoadFileReader(path, FMT[args["fmt"]])
+                sc2, pps2 = reader.open()
                 inv2 = inventory(sc2, pps2 if method == "full" else None)
                 inv1 = inventory(scn, pps if method == "full" else None)
                 same = inv1 == inv2
@@ -524,7 +532,8 @@ class C15(Property):
                        "foreign-protobuf-construct-before-xml-write", "skip-onto-existing", "always-onto-existing",
                        "midnight-between-two-writes-of-one-writer", "success-after-failed-write",
                        "both-write-methods-on-one-writer", "write-failed-as-twin", "identical-writers-compared",
-                       "readback-ok", "clock-crossed-midnight", "clock-went-backwards", "write-after-scenario-changed", "target-is-a-directory", "asked-user-answer-y", "asked-user-answer-n"]
+                       "readback-ok", "clock-crossed-midnight", "clock-went-backwards", "write-after-scenario-changed", "target-is-a-directory", "asked-user-answer-y", "asked-user-answer-n",
+                       "reader-object-reused-after-rewrite"]
     assumptions = [
         "the pristine twin is the library itself (fresh writer, fork-isolated): a defect that a fresh writer shows "
         "too is C01/C02/C03 territory and invisible here by construction",
